@@ -92,18 +92,42 @@ def o_lineage(ctx):
                                 name = "cell_par_lineage" if flat else "cell_par_lineage_nested"
                                 out.append((name, f"{f.path}: cell paragraph reports {p.lineage}"))
                                 break
-                    # predicates: true exactly for extracted tables / rows / cells whose first
+                    # predicates: true exactly for the extracted tables / rows / cells whose first
                     # paragraph comes from a source table
+                    def from_table(p):
+                        if p.elem is None or id(p.elem) not in order:
+                            return None          # fill paragraph or copy: not decidable from the element
+                        return "tbl" in [local(a) for a in ancestors(p.elem)]
+
+                    def flat_ok(p):
+                        # known findings D10/D21/D27 aside: only paragraphs whose lineage is intact
+                        return p.lineage == ("document", "tbl", "tr", "tc", "p")
+                    bad = None
                     for tbl in f.content:
-                        firsts = [p for r in tbl for c in r for p in c][:1]
-                        src_tbl = bool(firsts) and firsts[0].elem is not None and id(firsts[0].elem) in order and \
-                            "tbl" in [local(a) for a in ancestors(firsts[0].elem)]
-                        if firsts and firsts[0].elem is not None and id(firsts[0].elem) in order:
-                            if bool(is_tbl(tbl)) != src_tbl and firsts[0].lineage == ("document", "tbl", "tr", "tc", "p") or \
-                               (bool(is_tbl(tbl)) and not src_tbl):
-                                out.append(("table_predicates", f"{f.path}: is_tbl={is_tbl(tbl)} for a "
-                                            + ("table" if src_tbl else "non-table")))
+                        items = [("table", is_tbl, tbl, [p for r in tbl for c in r for p in c][:1])]
+                        for r in tbl:
+                            items.append(("row", is_tr, r, [p for c in r for p in c][:1]))
+                            for c in r:
+                                items.append(("cell", is_tc, c, list(c)[:1]))
+                        for kind, pred, item, first in items:
+                            if not first:
+                                if pred(item):
+                                    bad = f"{kind} without paragraphs is reported as a table {kind}"
+                                continue
+                            src = from_table(first[0])
+                            if src is None:
+                                continue
+                            got = bool(pred(item))
+                            if got and not src:
+                                bad = f"is_{kind} is True for a {kind} whose first paragraph is outside every table (lineage {first[0].lineage})"
+                            elif not got and src and flat_ok(first[0]):
+                                bad = f"is_{kind} is False for a {kind} of a source table"
+                            if bad:
                                 break
+                        if bad:
+                            break
+                    if bad:
+                        out.append(("table_predicates", f"{f.path}: {bad}"))
                 if html:
                     from docx2python.utilities import get_headings  # noqa: F401
             finally:
